@@ -642,6 +642,139 @@ def replay_binary_ord(a):
 
 
 # --------------------------------------------------------------------------------------------------
+# operator layer kernels: match_value (outcome classification) and CommonOperator::compare (every pair, in order)
+# --------------------------------------------------------------------------------------------------
+def match_value(a):
+    ERR = enum_variants(a.src, "rules/errors.rs", "Error")
+    NC = ERR.index("NotComparable")
+
+    def m_cmp(ex, argv):
+        return ex.fresh_enum("Result", 2, "cmp", {"Ok": ("bool", ex.fresh("Bool", "outcome")), "Err": ex.opq()})
+    ex = a.exec(r"(?:(?:rules::eval::)?operators::)?match_value", {"call": m_cmp, "success": lambda ex, av: ("variant", "X", "SUCCESS", list(av)),
+                                                                 "fail": lambda ex, av: ("variant", "X", "FAIL", list(av))},
+                unroll=1, max_paths=2000)
+    a.fns.append("rules::eval::operators::match_value")
+    lhs, rhs = ex.arg_env["_1"], ex.arg_env["_2"]
+    bad = []
+    for p in ex.paths:
+        cs = calls(p, "call")
+        if len(cs) != 1:
+            bad.append(pc_term(p.pc))
+            continue
+        tag, okb, errv = cs[0][3][2], cs[0][3][3]["Ok"][1], cs[0][3][3]["Err"]
+        d_err = disc(ex, errv)
+        # the comparator is applied to (lhs, rhs) in that order
+        av = cs[0][2][1] if len(cs[0][2]) > 1 else None
+        order = av is not None and av[0] == "tuple" and len(av[1]) == 2 and av[1][0] == lhs and av[1][1] == rhs
+        if p.outcome == "panic":
+            # unreachable!(): only for an error that is not NotComparable (the ordering comparators never produce one)
+            bad.append(f"(and {pc_term(p.pc)} (not (and (= {tag} 1) (not (= {d_err} {NC})))))")
+            continue
+        r = p.ret
+        if r is None or r[0] != "variant" or not order:
+            bad.append(pc_term(p.pc))
+            continue
+        if r[2] == "SUCCESS":
+            good = f"(and (= {tag} 0) {okb})" if (r[3][0] == lhs and r[3][1] == rhs) else "false"
+        elif r[2] == "FAIL":
+            good = f"(and (= {tag} 0) (not {okb}))" if (r[3][0] == lhs and r[3][1] == rhs) else "false"
+        elif r[2] == "ComparisonResult" and r[3] and r[3][0][0] == "variant" and r[3][0][2] == "NotComparable":
+            ncs = r[3][0][3][0]
+            pair = ncs[2].get("pair") if ncs[0] == "struct" else None
+            keeps = pair is not None and pair[0] == "struct" and pair[2].get("lhs") == lhs and pair[2].get("rhs") == rhs
+            good = f"(and (= {tag} 1) (= {d_err} {NC}))" if keeps else "false"
+        else:
+            good = "false"
+        bad.append(f"(and {pc_term(p.pc)} (not {good}))")
+    c = a.discharge("operators::match_value/classification", ex, bad,
+                    "one comparison: the comparator is applied to (lhs, rhs) in that order; Ok(true) -> Success, Ok(false) -> Fail, "
+                    "Err(NotComparable) -> NotComparable, each carrying the same two operands; the only panic path is an error that is not "
+                    "NotComparable")
+    if c:
+        c["replay"] = replay_binary(a)
+        c["reproduced"] = c["replay"].get("reproduced", False)
+        a.candidates.append(c)
+
+
+def common_operator(a):
+    ex = a.exec(OPS_IMPL, {"flattened": lambda ex, av: ex.opq(), "match_value": lambda ex, av: ex.opq(), "next": mirexec.m_iter_next,
+                           "into_iter": mirexec.m_new_iter, "iter": mirexec.m_new_iter, "with_capacity": lambda ex, av: ex.opq()},
+                log=("push",), unroll=2, max_paths=20000, first_arg_re=r"_1: &(?:operators::)?CommonOperator")
+    a.fns.append("rules::eval::operators::<CommonOperator as Comparator>::compare")
+    me = ex.arg_env["_1"]
+    bad, npairs = [], 0
+    for p in ex.paths:
+        r = p.ret
+        fl = calls(p, "flattened")
+        if p.outcome != "return" or len(fl) != 2 or not r or r[0] != "enum" or r[2] != "0":
+            bad.append(pc_term(p.pc))
+            continue
+        L, R = fl[0][3], fl[1][3]
+        probs = []
+        if not (same_v(fl[0][2][0], ex.arg_env["_2"]) and same_v(fl[1][2][0], ex.arg_env["_3"])):
+            probs.append("operands flattened in the wrong roles")
+        outer = iterations(ex, p, it_filter=lambda ev: ex.iter_src.get(ev[2][0][1], ev[2][0]) == L)
+        inner = iterations(ex, p, it_filter=lambda ev: ex.iter_src.get(ev[2][0][1], ev[2][0]) == R)
+        o_idx = {i: (k, el, t) for k, el, t, i in outer}
+        i_idx = {i: (k, el, t) for k, el, t, i in inner}
+        cur_o, cur_i, pairs = None, None, []
+        mv = []
+        for i, e in enumerate(p.events):
+            if i in o_idx:
+                cur_o = o_idx[i]
+            if i in i_idx:
+                cur_i = i_idx[i]
+            if e[0] == "call" and e[1] == "match_value":
+                npairs += 1
+                ok = (len(e[2]) == 3 and cur_o and cur_i and same_v(e[2][0], cur_o[1]) and same_v(e[2][1], cur_i[1])
+                      and same_v(e[2][2], field(ex, me, 0, "fn")))
+                if not ok:
+                    probs.append("a pair is not compared as (this lhs value, this rhs value, the operator's comparator)")
+                mv.append(e)
+        pushes = [e for e in calls(p, "push") if len(e[2]) == 2]
+        for j, e in enumerate(mv):
+            if j >= len(pushes) or not same_v(pushes[j][2][1], e[3]):
+                probs.append("a comparison outcome is not appended to the results in order")
+        # completeness: (number of lhs values) x (number of rhs values) comparisons were made
+        n_o = "(+ 0 0 " + " ".join(f"(ite (= {t} 1) 1 0)" for _k, _e, t, _i in outer) + ")"
+        per_outer = {}
+        cur = None
+        for i, e in enumerate(p.events):
+            if i in o_idx:
+                cur = o_idx[i][0]
+                per_outer.setdefault(cur, 0)
+            if e[0] == "call" and e[1] == "match_value" and cur is not None:
+                per_outer[cur] += 1
+        inner_by_outer = {}
+        cur = None
+        for i, e in enumerate(p.events):
+            if i in o_idx:
+                cur = o_idx[i][0]
+            if i in i_idx and cur is not None:
+                inner_by_outer.setdefault(cur, []).append(i_idx[i][2])
+        conds = []
+        for k, cnt in per_outer.items():
+            n_i = "(+ 0 0 " + " ".join(f"(ite (= {t} 1) 1 0)" for t in inner_by_outer.get(k, [])) + ")"
+            conds.append(f"(= {n_i} {cnt})")
+        good = "(and true " + " ".join(conds) + ")"
+        bad.append(f"(and {pc_term(p.pc)} (not {'false' if probs else good}))")
+    c = a.discharge("operators::CommonOperator::compare/all-pairs", ex, bad,
+                    f"< <= > >= over <= 2 left x <= 2 right (flattened) values ({npairs} comparisons): every left value is compared with every "
+                    "right value exactly once, as (left, right), with the operator's own comparator, and the outcomes are appended in that "
+                    "order; the result is Ok")
+    if c:
+        c["replay"] = replay_binary_ord(a)
+        if not c["replay"].get("reproduced"):
+            c["replay"] = replay_binary(a)
+        c["reproduced"] = c["replay"].get("reproduced", False)
+        a.candidates.append(c)
+
+
+def same_v(x, y):
+    return x is not None and y is not None and x == y
+
+
+# --------------------------------------------------------------------------------------------------
 # built-in functions: FunctionName::call dispatch and the one-line wrappers
 # --------------------------------------------------------------------------------------------------
 CALLABLE_IMPL = r"(?:rules::)?eval_context::<impl at guard/src/rules/eval_context\.rs:\d+:\d+: \d+:\d+>::call"
@@ -693,9 +826,9 @@ def function_dispatch(a):
 
 
 SITES = {
-    "C01": [guard_block, type_block, binary_operation, operator_dispatch],
+    "C01": [guard_block, type_block, binary_operation, operator_dispatch, match_value, common_operator],
     "C02": [guard_block, type_block],
     "C03": [flip_closure, negated_compare_wrapper],
-    "C13": [flip_closure, operator_dispatch, binary_operation],
+    "C13": [flip_closure, operator_dispatch, binary_operation, match_value, common_operator],
     "C18": [function_dispatch],
 }
